@@ -1,5 +1,7 @@
 import Orx.KSRun
 import Orx.IW.Completed
+import Orx.IW.Weak
+import Orx.Generated.Orderings
 /-! # C05 The end is permanent: pulling past the end never revives elements -/
 namespace Orx.Props.C05
 open Orx Orx.KS
@@ -44,5 +46,26 @@ it sets `completed` before it publishes or returns -- so that the wrapped iterat
 theorem iter_end_sets_completed (s : IW.Script) (t : Nat) (c : IW.Cfg) (r : IW.Req) (b : Nat) (acc : List Nat)
     (h : (c.th t).pc = .setC r b acc) : (IW.step s t c).C = true := by
   unfold IW.step; simp only [h]; split <;> simp [IW.setTh]
+
+/-- **… also beyond SC interleavings**: with stale `Acquire` loads of `yielded` and stale `Relaxed` loads of `completed`
+chosen adversarially at every step (`IW/Weak.lean`), a thread that starts pulling after `completed` was set never
+receives a position: the check it passes right after reserving is a `SeqCst` load of a flag that is only written by
+`SeqCst` stores (`source_completed_checks_are_seqcst`), so it cannot be stale. -/
+theorem iter_no_delivery_after_completed_under_stale_reads (s : IW.Script) (σ : List (Nat × IW.Stale)) (u : Nat) (c : IW.Cfg)
+    (hC : c.C = true) (hq : (c.th u).pc.quiet = true) :
+    IW.outPos ((IW.runS s σ c).th u) = IW.outPos (c.th u) :=
+  (IW.quiet_runS s σ u c hC hq).2
+
+/-- the orderings that statement relies on, read off the current source on every run -/
+theorem source_completed_checks_are_seqcst :
+    Orx.Generated.Orderings.completed_progress_and_get_begin_idx_load0 = .seqcst ∧
+    Orx.Generated.Orderings.completed_progress_and_get_begin_idx_load1 = .seqcst ∧
+    Orx.Generated.Orderings.completed_get_load0 = .seqcst ∧
+    Orx.Generated.Orderings.completed_get_load1 = .seqcst ∧
+    Orx.Generated.Orderings.completed_get_store2 = .seqcst ∧
+    Orx.Generated.Orderings.completed_fetch_n_store0 = .seqcst ∧
+    Orx.Generated.Orderings.completed_early_exit_store0 = .seqcst ∧
+    Orx.Generated.Orderings.completed_mark_completed_store0 = .seqcst ∧
+    Orx.Generated.Orderings.completed_drop_store0 = .seqcst := by decide
 
 end Orx.Props.C05
